@@ -257,12 +257,12 @@ Proof.
   all: try apply HA.
   all: try (destruct (Nat.eqb_spec j i) as [->|Hne]; [|apply HA]).
   all: try (specialize (HA i); unfold coherent in *; nsimpl; rewrite ?M, ?M0 in *; nsimpl; intuition congruence).
+  (* WSkipExec, WFinish: the new status depends on the old one *)
+  all: try (specialize (HA i); unfold coherent in *; rewrite M in HA; nsimpl; destruct (st (nd s i)); intuition congruence).
   - (* LMark *) apply dep_mark_values in M. specialize (HA i). unfold coherent in *. nsimpl.
     destruct (ph (nd s i)); destruct M; subst; intuition congruence.
   - (* LSkipPre *) apply is_committed_eq in H. apply HB in H. destruct H as [_ H].
     specialize (HA i). unfold coherent in *. nsimpl. destruct (ph (nd s i)); intuition congruence.
-  - (* WFinish *) specialize (HA i). unfold coherent in *. rewrite M in HA. nsimpl.
-    destruct (st (nd s i)); intuition congruence.
   - (* SigNode *)
     match goal with |- context [j =? ?k] => destruct (Nat.eqb_spec j k) as [->|Hne]; [|apply HA] end.
     match goal with |- coherent (with_st (nd s ?k) _) => specialize (HA k); unfold coherent in *; nsimpl;
